@@ -13,7 +13,7 @@ LEVEL = "exploration"
 EXHAUSTIVE = True
 TECHNIQUE = "runtime monitor: a recording RandomSource logs every draw made between two yields of the real TournamentSelection / LexicaseSelection, so each winner is checked against exactly the participants drawn for it (tournament) or against the existence of a case order under which it survives the (epsilon-)lexicase filter over the candidates still available (all case permutations); for populations <= 4 a scripted source enumerates ALL draw outcomes"
 RULE = (
-    "cases = (population 2..8 with prescribed fitness incl. ties, tournament size 1..n+2, with/without replacement, target 1..n, direction) and "
+    "cases = (population 2..8 with prescribed fitness incl. ties, tournament size 1..n+2, with/without replacement, target 1..n - one case in five up to 2n+2, so that the pool is used up and refilled -, direction) and "
     "(population 2..7, 2-4 cases with per-case directions, values with ties, epsilon on/off, target 1..n); exhaustive cases enumerate every draw sequence; "
     "distinct_nontrivial = distinct (fitness table, parameters, winner sequence) observations"
 )
@@ -39,7 +39,7 @@ def gen_cases(tier, seed):
     for _ in range(plan["tournament"]):
         n = rng.randint(2, 8)
         tpool = [0, 1, 1, 2, 3, 7] if rng.random() < 0.7 else [1e-6, 4e-6, 2e-6, 1.0, 1.000001, float("inf"), float("-inf"), 0.0]
-        c = {"kind": "tournament", "values": [rng.choice(tpool) for _ in range(n)], "size": rng.randint(1, n + 2), "replacement": rng.random() < 0.5, "target": rng.randint(1, n), "minimize": rng.random() < 0.5, "seed": rng.randrange(10**6)}
+        c = {"kind": "tournament", "values": [rng.choice(tpool) for _ in range(n)], "size": rng.randint(1, n + 2), "replacement": rng.random() < 0.5, "target": rng.randint(1, n) if rng.random() < 0.8 else rng.randint(n + 1, 2 * n + 2), "minimize": rng.random() < 0.5, "seed": rng.randrange(10**6)}  # (one in five asks for more winners than there are individuals: the pool is used up and refilled)
         yield with_copies(rng, c) if rng.random() < 0.25 else c
     for _ in range(plan["lexicase"]):
         n = rng.randint(2, 7)
